@@ -307,7 +307,7 @@ func discoverCounters(p *core.Prog, named *types.Named) map[string]bool {
 			ms := types.NewMethodSet(types.NewPointer(n))
 			hasPush, hasPop := false, false
 			for j := 0; j < ms.Len(); j++ {
-				switch ms.At(j).Obj().Name() {
+				switch methodName(ms.At(j).Obj()) {
 				case "push":
 					hasPush = true
 				case "pop":
